@@ -114,7 +114,10 @@ func (m *c10mon) Check(s *sim.Sim, st *sim.Step) []*sim.Violation {
 		}
 		_ = expired
 		for k, v := range rec.SessOut {
-			if inList(wl, k) || k == "flash_success" || k == "flash_error" {
+			// the user identity, the half-auth mark and the activity stamp go in any case — an application
+			// that (mis)lists one of them among its whitelisted keys does not thereby stay logged in
+			identity := k == "uid" || k == "halfauth" || k == "last_action"
+			if (inList(wl, k) && !identity) || k == "flash_success" || k == "flash_error" {
 				continue
 			}
 			vs = append(vs, vio("C10", "value-survives-logout|"+k, "after logout the session still holds %s=%q (state before: %v)", k, trunc(v, 24), stateLabels(rec.SessIn)))
@@ -122,6 +125,9 @@ func (m *c10mon) Check(s *sim.Sim, st *sim.Step) []*sim.Violation {
 		for _, k := range wl {
 			// what the key should hold afterwards: its value at request start, unless the site's own
 			// middleware changed it in this very request (?_lang= puts app_lang, ?_drop= deletes a key)
+			if k == "uid" || k == "halfauth" || k == "last_action" {
+				continue // see above
+			}
 			want, had := rec.SessIn[k]
 			changed := false
 			if v := st.Act.Opt["_lang"]; v != "" && k == "app_lang" {
@@ -229,11 +235,15 @@ func init() {
 	prof.Cls = map[string]map[string]int{"login": {"ok": 80, "wrong": 12, "near": 4, "empty": 4}}
 	register(&Check{
 		ID: "C10", Level: "exploration",
-		Rule:  "states are harvested, not hand-made: the mixed random histories of the C01 generator (all flows, all module subsets, whitelists of 0/1/3 application keys, logout method GET/POST/DELETE) are cut at random points by a logout from whatever state the browser is in (logged in / half-authed via remember / mid-2FA login / mid-2FA setup / mid-e-mail-verify / mid-OAuth2 / SMS code outstanding / anonymous), followed by a visit; some logouts carry a redir parameter (same-site, off-site, malformed), some happen while the user table is unreachable (every user lookup of that request fails). Oracle: after the logout response the server-side session holds only whitelisted keys (values preserved) and flash keys, the jar has no rm cookie, the follow-up request is unauthenticated; any other method on /logout leaves uid, auth marks, pending logins and the cookie as they were. distinct_nontrivial = distinct (method, configured?, state labels, whitelist size, cookie present, mode, expire installed) signatures.",
+		Rule:  "states are harvested, not hand-made: the mixed random histories of the C01 generator (all flows, all module subsets, whitelists of 0/1/3 application keys (in a sixth of the units also naming uid / halfauth / last_action, which a logout removes regardless), logout method GET/POST/DELETE) are cut at random points by a logout from whatever state the browser is in (logged in / half-authed via remember / mid-2FA login / mid-2FA setup / mid-e-mail-verify / mid-OAuth2 / SMS code outstanding / anonymous), followed by a visit; some logouts carry a redir parameter (same-site, off-site, malformed), some happen while the user table is unreachable (every user lookup of that request fails). Oracle: after the logout response the server-side session holds only whitelisted keys (values preserved) and flash keys, the jar has no rm cookie, the follow-up request is unauthenticated; any other method on /logout leaves uid, auth marks, pending logins and the cookie as they were. distinct_nontrivial = distinct (method, configured?, state labels, whitelist size, cookie present, mode, expire installed) signatures.",
 		Units: func(t string) int { return tierN(t, 700, 30000) },
 		Run: func(c *RunCtx, unit int) {
 			r := Rng(c.Seed, "C10", unit)
 			cfg := randomCfg(r, "logout", "auth")
+			if unit%6 == 5 && !cfg.UseExpire {
+				// a whitelist that names one of the library's own identity keys next to application keys
+				cfg.Whitelist = [][]string{{"app_theme", "uid"}, {"halfauth", "app_lang"}, {"last_action", "app_cart", "uid"}}[(unit/6)%3]
+			}
 			s, err := sim.New(cfg, r, sim.SeedOpt{Accounts: 3, Browsers: 3, TwoFAProb: 0.4, Unconfirmed: 0.05})
 			if err != nil {
 				c.Stats.Inconclusive = append(c.Stats.Inconclusive, "world: "+err.Error())
